@@ -32,7 +32,7 @@ INVARIANTS = ["HeldOK", "Once", "SettledAtReturn", "Deterministic", "DrySubmitsN
 
 # deviation switches of Scheduler.tla that describe the code as it is now
 DEVS = ("CONSTANT DevRefork = FALSE\nCONSTANT DevDoubleRelease = FALSE\nCONSTANT DevForkAtExec = TRUE\n"
-        "CONSTANT DevCseErrorArg = TRUE\n")
+        "CONSTANT DevCseErrorArg = TRUE\nCONSTANT DevCseSubtree = FALSE\n")
 
 RUN = {"k": "run", "mode": "real", "cache": True}
 DRY = {"k": "run", "mode": "dry", "cache": True}
@@ -161,7 +161,36 @@ def curated_programs() -> list[dict]:
                          "leaf": {"units": {"r": 1}, "vers": [_t("leaf", 1)]},
                          "ghost": {"units": {}, "vers": [_t("leaf", 5), _t("noexec", 5)]}},
                "plan": [RUN, {"k": "edit", "t": "ghost"}, DRY, RUN]})
+    # 15. a shallow task P whose child C(1) is also evaluated beneath its sibling Q: when P starts after
+    #     Q's C(1) has finished, P's C(1) is answered by CSE and evaluates no child jobs, yet the subtree task
+    #     set P records must contain D -- otherwise the edit of D is not seen by P's ultimate reduction
+    ps.append({"ns": "cur15", "res": ["r"], "limits": {"r": 2}, "root": {"t": "main", "arg": 0},
+               "tasks": {"main": {"units": {}, "vers": [_t("calls", 0, [_c("qq", "c", 1), _c("xx", "c", 5),
+                                                                         _c("pp", "s", 0, 2)])]},
+                         "qq": {"units": {}, "vers": [_t("calls", 0, [_c("cc", "p", 0)])]},
+                         "pp": {"units": {}, "sh": 1, "vers": [_t("calls", 0, [_c("cc", "c", 1)])]},
+                         "cc": {"units": {}, "vers": [_t("calls", 0, [_c("dd", "p", 0)])]},
+                         "xx": {"units": {"r": 1}, "vers": [_t("leaf", 1)]},
+                         "dd": {"units": {"r": 1}, "vers": [_t("leaf", 1), _t("leaf", 10)]}},
+               "plan": [RUN, {"k": "edit", "t": "dd"}, RUN]})
     return [progen.normalize(p) for p in ps]
+
+
+def shallow_programs(ctx: Ctx, n_random: int, tag: str) -> list[dict]:
+    """Programs for the ultimate-reduction side (C03): check_valid="shallow" tasks over subtrees that are
+    edited and reverted between runs; cur15 puts a CSE-answered call beneath the shallow task."""
+    edit = {"k": "edit", "t": "leaf"}
+    ps = [p for p in curated_programs() if p["ns"] == "cur15"]
+    for i in range(n_random):
+        plan = [RUN, edit, RUN, edit, RUN] if i % 2 else [RUN, edit, RUN]
+        p = progen.random_program(ctx.rng, f"sh{tag}{ctx.seed}_{i}", max_kids=3, p_fail=0.15, plan=list(plan))
+        p["tasks"]["mid"]["sh"] = 1
+        if i % 3 == 0:
+            p["tasks"]["main"]["sh"] = 1
+        ps.append(p)
+    for p in ps:
+        p["ns"] = f"{p['ns']}_{tag}{os.getpid()}"
+    return ps
 
 
 def make_programs(ctx: Ctx, n_random: int, tag: str) -> list[dict]:
@@ -429,12 +458,14 @@ def _hang_key(rec: dict) -> Optional[str]:
 
 
 def suite(ctx: Ctx, on: list[str], n_random_progs: int, n_sim: int, n_random_hist: int,
-          alt_limits: bool = False, corrupt=None, tag: str = "s") -> dict:
+          alt_limits: bool = False, corrupt=None, tag: str = "s", progs: Optional[list] = None,
+          need_handlers=("exec", "done", "resolve", "reject", "finish")) -> dict:
     """
     Runs the whole pipeline for the clause groups `on`.  `corrupt(trace) -> bool` builds the negative
     control for the property (mutates a copy of a recorded trace so that its clause must fail).
     """
-    progs = make_programs(ctx, n_random_progs, tag)
+    if progs is None:
+        progs = make_programs(ctx, n_random_progs, tag)
     # ---- 1+2. TLC: the model, all programs, all schedules, all plans; every property an invariant.
     #   The initial state also picks DevLostWakeup: FALSE is redun after the fix: commit (NoHang is an
     #   invariant there), TRUE is redun as pinned: the other invariants still hold and TLC reports every
@@ -470,7 +501,7 @@ def suite(ctx: Ctx, on: list[str], n_random_progs: int, n_sim: int, n_random_his
                 hk[a["h"]] = hk.get(a["h"], 0) + 1
     ctx.note("behaviour_handler_counts", hk)
     ctx.note("behaviour_run_outcomes", oc)
-    for need in ("exec", "done", "resolve", "reject", "finish"):
+    for need in need_handlers:
         if not hk.get(need):
             raise MachineryError(f"no replayed behaviour exercises the {need} handler: the check would be vacuous")
     expects: dict[int, list] = {}
